@@ -543,6 +543,7 @@ class Interp:
                     v = self.eval(node.ast, out_env, f)
                     c = self.truth(v)
                     if c is None and self.decide_hook is not None:
+                        self.cur_function = f
                         c = self.decide_hook(node.ast, self)
                     if c is not None:
                         forced = c
